@@ -76,6 +76,7 @@ type Interp struct {
 	orderDev  bool   // a non-default iteration order was taken on this path
 	rangeCount int
 	releasedUse bool
+	poolMonitor bool // use-after-Put is a violation (C13, C14)
 	runningPureInit bool
 	pureDone        map[*ssa.Package]bool
 	pools       map[*Val][]Val
@@ -188,7 +189,7 @@ func (in *Interp) inconclusive(msg string) {
 
 // noteAccess reports the use of memory that was handed back to a sync.Pool.
 func (in *Interp) noteAccess(o *Obj) {
-	if o != nil && o.Released && !in.releasedUse {
+	if o != nil && o.Released && !in.releasedUse && in.poolMonitor {
 		in.releasedUse = true
 		in.recordViolation("assert", "monitor: memory handed back to a sync.Pool is used afterwards (another goroutine may own it by then)", in.ex.Model())
 	}
